@@ -15,14 +15,14 @@ theorem sim_all (is : List Instruction) :
     cases n with
     | zero =>
       refine ⟨?_, ?_, ?_, ?_⟩
-      · intro st lo s t t' _ _ _ _ _ _ hex
+      · intro st lo s t t' _ _ _ _ _ _ _ hex
         simp [execStmt] at hex
-      · intro b lo s t t' _ _ _ _ _ _ hex
+      · intro b lo s t t' _ _ _ _ _ _ _ hex
         simp [execBlock] at hex
       · intro es kwElse elseBody kwEnd lo pos stop elses j own K s t t' _ _ _ _ _ _ _ _ _ _ _ _ _ _ _ _ _
-          _ _ _ _ _ hex
+          _ _ _ _ _ _ hex
         simp [execElifs] at hex
-      · intro kw x handle hn body kwEnd lo own K L items s t t' _ _ _ _ _ _ _ _ _ _ _ _ _ _ _ _ _ _ _ hex
+      · intro kw x handle hn body kwEnd lo own K L items s t t' _ _ _ _ _ _ _ _ _ _ _ _ _ _ _ _ _ _ _ _ hex
         simp [execFor] at hex
     | succ fuel =>
       obtain ⟨hS, hB, hE, hF⟩ := ih fuel (Nat.lt_succ_self fuel)
@@ -37,10 +37,10 @@ theorem sim_all (is : List Instruction) :
         exact stmt_for is fuel (fun m hm => ⟨(ih m hm).2.1, (ih m hm).2.2.2⟩) kw x handle body kwEnd
       | fnDef kw sc name body kwEnd =>
         intro lo s t t' _ hs
-        simp [Stmt.simple] at hs
+        simp [Stmt.simple2] at hs
       | ret kw v =>
         intro lo s t t' _ hs
-        simp [Stmt.simple] at hs
+        simp [Stmt.simple2] at hs
 
 theorem cacheOK_init (is : List Instruction) : CacheOK is {} :=
   ⟨fun l m h => by simp [KV.get] at h, fun l m h => by simp [KV.get] at h,
@@ -49,19 +49,20 @@ theorem cacheOK_init (is : List Instruction) : CacheOK is {} :=
 theorem rel_init (vars : Vars) : Rel {} { vars := vars, sdk := {} } :=
   ⟨rfl, rfl, rfl, rfl, rfl, rfl, fun k l h => by simp [KV.get] at h⟩
 
-/-- the simulation theorem for whole programs of the simple fragment -/
-theorem sim_program (b : Block) (vars : Vars) (fuelT : Nat) (t' : TState)
-    (hwf : b.wf = true) (hs : b.simple = true)
+/-- the simulation theorem for whole programs of the simple2 fragment whose conditions have safe
+    bound arguments throughout the tree run -/
+theorem sim_program2 (b : Block) (vars : Vars) (fuelT : Nat) (t' : TState)
+    (hwf : b.wf = true) (hs : b.simple2 = true) (hsafe : CondArgsSafe fuelT b vars)
     (h : execBlock (program b) fuelT b { vars := vars, sdk := {} } = .normal t') :
     ∃ fuelM rs, interpRun fuelM (program b) vars {} = (rs, .reachedEnd) ∧
       rs.vars = t'.vars ∧ rs.st.emitted = t'.sdk.emitted ∧ rs.st.handles = t'.sdk.handles := by
   obtain ⟨s', ⟨n, hsteps⟩, hcore, _, _, _⟩ :=
     (sim_all (program b) fuelT).2.1 b 0 {} { vars := vars, sdk := {} } t' hwf hs (At.program b)
-      (cacheOK_init _) (rel_init vars) (fun e he => by simp at he) h
-  refine ⟨n + 1, ⟨0 + b.flatten.length, 0 + n + 1, t'.vars, s'⟩, ?_, rfl, hcore.rel.emitted,
+      (cacheOK_init _) (rel_init vars) (fun e he => by simp at he) hsafe h
+  refine ⟨n + 3, ⟨0 + b.flatten.length, 0 + n + 1, t'.vars, s'⟩, ?_, rfl, hcore.rel.emitted,
     hcore.rel.handles⟩
   unfold interpRun run
-  rw [hsteps (evalInstrsF (n + 1)) 1 0, runLoop_succ]
+  rw [hsteps (n + 3) 3 0 (by omega), runLoop_succ]
   have hnone : (program b)[0 + b.flatten.length]? = none := by
     apply List.getElem?_eq_none
     rw [length_program]
@@ -69,6 +70,163 @@ theorem sim_program (b : Block) (vars : Vars) (fuelT : Nat) (t' : TState)
   unfold runStep
   simp only [Bool.false_eq_true, if_false, hnone]
 
+/-! ### programs of the simple fragment: every condition is a value condition, nothing to check -/
+
+theorem safe_of_simple (is : List Instruction) :
+    ∀ n, (∀ st t, Stmt.simple st = true → safeStmt is n st t = true) ∧
+      (∀ b t, Block.simple b = true → safeBlock is n b t = true) ∧
+      (∀ es kwElse elseBody t, Elifs.simple es = true → Block.simple elseBody = true →
+        safeElifs is n es kwElse elseBody t = true) ∧
+      (∀ x items body t, Block.simple body = true → safeFor is n x items body t = true) := by
+  intro n
+  induction n with
+  | zero => exact ⟨fun _ _ _ => rfl, fun _ _ _ => rfl, fun _ _ _ _ _ _ => rfl, fun _ _ _ _ _ => rfl⟩
+  | succ n ih =>
+    obtain ⟨hS, hB, hE, hF⟩ := ih
+    refine ⟨?_, ?_, ?_, ?_⟩
+    · intro st t hs
+      cases st with
+      | line l => rfl
+      | ifChain kwIf cond body elifs kwElse elseBody kwEnd =>
+        simp only [Stmt.simple, Bool.and_eq_true] at hs
+        simp only [safeStmt, Bool.and_eq_true]
+        refine ⟨condArgsSafe_of_simple t.vars hs.1.1.1, ?_⟩
+        cases evalCond is n cond t with
+        | none => rfl
+        | some pr =>
+          obtain ⟨bv, t1⟩ := pr
+          cases bv with
+          | true => exact hB body t1 hs.1.1.2
+          | false => exact hE elifs kwElse elseBody t1 hs.1.2 hs.2
+      | whileLoop kw cond body kwEnd =>
+        have hs0 := hs
+        simp only [Stmt.simple, Bool.and_eq_true] at hs
+        simp only [safeStmt, Bool.and_eq_true]
+        refine ⟨condArgsSafe_of_simple t.vars hs.1, ?_⟩
+        cases evalCond is n cond t with
+        | none => rfl
+        | some pr =>
+          obtain ⟨bv, t1⟩ := pr
+          cases bv with
+          | false => rfl
+          | true =>
+            simp only [Bool.and_eq_true]
+            refine ⟨hB body t1 hs.2, ?_⟩
+            cases execBlock is n body t1 with
+            | normal t2 => exact hS _ t2 hs0
+            | _ => rfl
+      | forIn kw x handle body kwEnd =>
+        simp only [Stmt.simple, Bool.and_eq_true] at hs
+        simp only [safeStmt]
+        split
+        · exact hF _ _ body t hs.1.2
+        · rfl
+      | fnDef kw sc name body kwEnd => simp [Stmt.simple] at hs
+      | ret kw v => simp [Stmt.simple] at hs
+    · intro b t hs
+      cases b with
+      | nil => rfl
+      | cons st rest =>
+        simp only [Block.simple, Bool.and_eq_true] at hs
+        simp only [safeBlock, Bool.and_eq_true]
+        refine ⟨hS st t hs.1, ?_⟩
+        cases execStmt is n st t with
+        | normal t1 => exact hB rest t1 hs.2
+        | _ => rfl
+    · intro es kwElse elseBody t hs hes
+      cases es with
+      | nil =>
+        simp only [safeElifs]
+        split
+        · exact hB elseBody t hes
+        · rfl
+      | cons kw cond body rest =>
+        simp only [Elifs.simple, Bool.and_eq_true] at hs
+        simp only [safeElifs, Bool.and_eq_true]
+        refine ⟨condArgsSafe_of_simple t.vars hs.1.1, ?_⟩
+        cases evalCond is n cond t with
+        | none => rfl
+        | some pr =>
+          obtain ⟨bv, t1⟩ := pr
+          cases bv with
+          | true => exact hB body t1 hs.1.2
+          | false => exact hE rest kwElse elseBody t1 hs.2 hes
+    · intro x items body t hs
+      cases items with
+      | nil => rfl
+      | cons v rest =>
+        simp only [safeFor, Bool.and_eq_true]
+        refine ⟨hB body _ hs, ?_⟩
+        cases execBlock is n body { t with vars := t.vars.set x v } with
+        | normal t1 => exact hF x rest body t1 hs
+        | _ => rfl
+
+/-- the simulation theorem for whole programs of the simple fragment -/
+theorem sim_program (b : Block) (vars : Vars) (fuelT : Nat) (t' : TState)
+    (hwf : b.wf = true) (hs : b.simple = true)
+    (h : execBlock (program b) fuelT b { vars := vars, sdk := {} } = .normal t') :
+    ∃ fuelM rs, interpRun fuelM (program b) vars {} = (rs, .reachedEnd) ∧
+      rs.vars = t'.vars ∧ rs.st.emitted = t'.sdk.emitted ∧ rs.st.handles = t'.sdk.handles :=
+  sim_program2 b vars fuelT t' hwf (Block.simple2_of_simple b hs)
+    ((safe_of_simple (program b) fuelT).2.1 b _ hs) h
+
+end Duck
+
+/-! ### the nested evaluator's fuel: a crash deep inside is masked -/
+
+namespace Duck
+open Duck.Spec Duck.Reser
+
+def nnt : List Str := ["not".toList, "not".toList, "true".toList]
+
+/-- `not not true`, nested fuel 2: the inner fuel crash comes out as an ordinary error -/
+theorem nnt_fuel2 : (evalCondition (evalInstrsF 2) [] nnt [] {}).1 = .error () := by
+  have hres : resolveCmd {} "not".toList = some .notC := by decide
+  have hin := evalCondition_cmd_low 1 (by omega) ([] ++ [condInstr "not".toList ["not".toList, "true".toList]])
+    "not".toList ["true".toList] [] {} .notC (by decide) (by decide) (by decide) hres
+  generalize hR : evalCondition (evalInstrsF 1) ([] ++ [condInstr "not".toList ["not".toList, "true".toList]])
+    ["not".toList, "true".toList] [] {} = R at hin
+  obtain ⟨r0, v0, s0⟩ := R
+  simp only at hin
+  subst hin
+  have hrun : runCmdF (evalInstrsF 1) ([] ++ [condInstr "not".toList ["not".toList, "true".toList]]) 3 .notC
+      ["not".toList, "true".toList] none ([] : List Instruction).length [] {} = (errR, v0, s0) := by
+    rw [runCmdF_not _ _ _ _ _ _ _ rfl, hR]; rfl
+  have := evalCondition_cmd_error 1 [] "not".toList ["not".toList, "true".toList] [] {} .notC _ v0 s0
+    (by decide) (by decide) (by decide) hres hrun
+  show (evalCondition (evalInstrsF (1 + 1)) [] ("not".toList :: ["not".toList, "true".toList]) [] {}).1 = _
+  rw [this]
+
+theorem nnt_fuel3 : (evalCondition (evalInstrsF 3) [] nnt [] {}).1 = .ok true := by
+  have hres : resolveCmd {} "not".toList = some .notC := by decide
+  -- innermost: the value condition `true`
+  have h0 : evalCondition (evalInstrsF 1)
+      (([] ++ [condInstr "not".toList ["not".toList, "true".toList]]) ++
+        [condInstr "not".toList ["true".toList]]) ["true".toList] [] {} =
+      (condVal ["true".toList], [], {}) :=
+    evalCondition_slice _ _ _ _ _ _ (by decide)
+  have hv : condVal ["true".toList] = .ok true := by
+    have : evalSlice ["true".toList] = .ok true := by rfl
+    unfold condVal; rw [this]
+  have hrun1 : runCmdF (evalInstrsF 1)
+      (([] ++ [condInstr "not".toList ["not".toList, "true".toList]]) ++
+        [condInstr "not".toList ["true".toList]]) 3 .notC ["true".toList] none
+      ([] ++ [condInstr "not".toList ["not".toList, "true".toList]]).length [] {} =
+      (.continue (some "false".toList), [], {}) := by
+    rw [runCmdF_not _ _ _ _ _ _ _ rfl, h0, hv]; rfl
+  have h1 := evalCondition_cmd_continue 0 ([] ++ [condInstr "not".toList ["not".toList, "true".toList]])
+    "not".toList ["true".toList] [] {} .notC _ [] {} (by decide) (by decide) (by decide) hres hrun1
+  have hrun2 : runCmdF (evalInstrsF 2) ([] ++ [condInstr "not".toList ["not".toList, "true".toList]]) 3
+      .notC ["not".toList, "true".toList] none ([] : List Instruction).length [] {} =
+      (.continue (some "true".toList), [], {}) := by
+    rw [runCmdF_not _ _ _ _ _ _ _ rfl, h1]; rfl
+  have h2 := evalCondition_cmd_continue 1 [] "not".toList ["not".toList, "true".toList] [] {} .notC _ [] {}
+    (by decide) (by decide) (by decide) hres hrun2
+  show (evalCondition (evalInstrsF (1 + 2)) [] ("not".toList :: ["not".toList, "true".toList]) [] {}).1 = _
+  rw [h2]
+  show Except.ok (isTrue (some "true".toList)) = Except.ok true
+  have : isTrue (some "true".toList) = true := by decide
+  rw [this]
 end Duck
 
 /-! ### sub-fragments (the stages of the proof) -/
